@@ -158,6 +158,7 @@ const (
 	ULoneCR                   = "lone-cr"
 	UFloat                    = "float"
 	UMinusDigitAfterOperand   = "minus-digit-after-operand"
+	UMinusDigitAfterNonValue  = "minus-digit-after-non-value-token"
 	ULoneAmp                  = "lone-amp"
 	UNonUTF8                  = "non-utf8"
 	UUnicodeLetter            = "unicode-letter-outside-string"
@@ -394,6 +395,14 @@ func (s *scanner) next() {
 			// `a-1`, `a -1`: Go reads operator + literal; the repository reads a negative
 			// literal. C11 is silent (C12 owns this case); best-effort reading: Go's.
 			s.unspec(UMinusDigitAfterOperand)
+			switch s.prev {
+			case Identifier, NumberLiteral, StringLiteral, BoolLiteral, NilLiteral, ClosingRoundBracket, ClosingSquareBracket:
+				// an expression certainly ends here: Go's reading is the only sensible one
+			default:
+				// after a type name, a builtin's name, '}', '++' or '--' no valid program continues with
+				// "-<digit>": nobody specifies how that is split
+				s.unspec(UMinusDigitAfterNonValue)
+			}
 			s.advance(1)
 			s.emit(BinaryOperator, start, row, col, "-", "")
 			return
